@@ -97,6 +97,7 @@ func (e *env) close() {
 
 // policy builds the fault policy: requests k, k+1, ... of the call are faulted.
 func policy(srv *udpnet.Server, c Case) func(rx *simbmc.Rx) []udpnet.Reply {
+	faulted := 0
 	return func(rx *simbmc.Rx) []udpnet.Reply {
 		n := srv.Received
 		var normal []udpnet.Reply
@@ -107,8 +108,15 @@ func policy(srv *udpnet.Server, c Case) func(rx *simbmc.Rx) []udpnet.Reply {
 			srv.ValidSent += len(normal)
 			return normal
 		}
+		faulted++
 		switch c.Fault {
 		case "blackhole":
+			return nil
+		case "garbage-then-blackhole":
+			// one undecodable reply (the library backs off and sends again), then silence
+			if faulted == 1 {
+				return []udpnet.Reply{{Data: []byte{6, 0, 0xff, 7, 6, 0, 1, 2, 3, 4, 5, 6, 7, 8, 9}}}
+			}
 			return nil
 		case "late":
 			for i := range normal {
@@ -278,6 +286,21 @@ func cases() []Case {
 			}
 		}
 	}
+	// deadlines that fall while a RETRY is waiting for its reply (the back-off before
+	// the first retry is 0.25-0.75 s): after one silent attempt of 1.5 s the second
+	// attempt is in flight at 2.6 s; after an immediate garbage reply the second
+	// attempt of 1.2 s is in flight at 0.85 s
+	for _, call := range []string{"sessionless", "newsession", "sdr", "dcmi"} {
+		for _, f := range []string{"blackhole", "late"} {
+			if call != "sessionless" && call != "newsession" {
+				continue // in a session a silent attempt ends the command
+			}
+			out = append(out, Case{Call: call, Fault: f, K: 0, T: 1500 * time.Millisecond, D: 2600 * time.Millisecond})
+		}
+	}
+	for _, call := range []string{"sessionless", "newsession", "insession", "close", "sdr", "dcmi"} {
+		out = append(out, Case{Call: call, Fault: "garbage-then-blackhole", K: 0, T: 1200 * time.Millisecond, D: 850 * time.Millisecond})
+	}
 	return out
 }
 
@@ -360,7 +383,7 @@ func TestDeadlines(t *testing.T) {
 func TestCoverage(t *testing.T) {
 	need := []string{"deadlines-complete"}
 	for _, call := range []string{"sessionless", "newsession", "insession", "close", "sdr", "dcmi"} {
-		need = append(need, "control:"+call, "fault:"+call+":blackhole", "fault:"+call+":garbage")
+		need = append(need, "control:"+call, "fault:"+call+":blackhole", "fault:"+call+":garbage", "fault:"+call+":garbage-then-blackhole")
 	}
 	ev.RequireLabels(t, 1, need...)
 }
